@@ -88,7 +88,9 @@ TrJoin == /\ HasEvent("Join")
                  tp == { <<t[1], t[2]>> : t \in trip' }
              IN Consume(Named([
                   raised |-> E.raised,
-                  missing_pair |-> ~E.raised /\ ~(tp \subseteq rp),
+                  db_mutated |-> ("db_changed" \in DOMAIN E) /\ E.db_changed,
+                  missing_pair |-> ~E.raised /\ \E t \in tp \ rp : ~(inp.two /\ t[1] = t[2]),
+                  missing_pair_equal_positions |-> ~E.raised /\ \E t \in tp \ rp : inp.two /\ t[1] = t[2],
                   spurious_pair |-> ~E.raised /\ ~(rp \subseteq tp),
                   wrong_distance |-> ~E.raised /\ \E x \in 1..Len(ret) :
                                         /\ <<ret[x][1], ret[x][2]>> \in tp
